@@ -1,6 +1,7 @@
-"""C02 - queue family check (see lib/queuefam.py)."""
-from lib import queuefam
+"""C02 - queue family check (see lib/queuefam.py) + the state machine tied to the Go sources by translation
+(translate/transitions.go -> coq/Gen/Transitions.v, Properties/C02trans.v, lib/c02trans.py)."""
+from lib import c02trans, queuefam
 
 
 def main(ctx, replay):
-    return queuefam.run_property(ctx, "C02", 150, 3000)
+    return queuefam.run_property(ctx, "C02", 150, 3000, extra=c02trans.run, extra_prop_files=("C02trans",))
